@@ -307,18 +307,21 @@ def tlaps_proof(chk):
     import shutil as sh
     wd = workdir("tlaps")
     try:
-        for f in ("Spowtd.tla", "SpowtdProof.tla"):
+        for f in ("Spowtd.tla", "SpowtdProof.tla", "SpowtdConfluent.tla"):
             sh.copy(os.path.join(VERIF, "spec", f), wd)
-        p = subprocess.run(["tlapm", "SpowtdProof.tla"], cwd=wd, capture_output=True, text=True, timeout=1500)
-        out = p.stdout + p.stderr
-        m = re.search(r"All (\d+) obligations proved", out)
-        if m:
-            chk.cov["tlaps_obligations"] = int(m.group(1))
-            chk.cov["tlaps_discharged"] = int(m.group(1))
-            chk.notes.append("TLAPS: Spec => []NoMixture and Spec => Atomic proved for arbitrary argument sets (%s obligations, SpowtdProof.tla)" % m.group(1))
-        else:
-            f = re.search(r"(\d+)/(\d+) obligations failed", out)
-            raise MachineryError("TLAPS proof of NoMixture did not go through: %s" % (f.group(0) if f else out[-400:]))
+        total = 0
+        for mod, what in (("SpowtdProof.tla", "Spec => []NoMixture and Spec => Atomic"),
+                          ("SpowtdConfluent.tla", "Spec => []Confluent (the file is a function of the SET of completed steps)")):
+            p = subprocess.run(["tlapm", "--threads", "4", mod], cwd=wd, capture_output=True, text=True, timeout=1500)
+            out = p.stdout + p.stderr
+            m = re.search(r"All (\d+) obligations proved", out)
+            if not m:
+                f = re.search(r"(\d+)/(\d+) obligations failed", out)
+                raise MachineryError("TLAPS proof %s did not go through: %s" % (mod, f.group(0) if f else out[-400:]))
+            total += int(m.group(1))
+            chk.notes.append("TLAPS: %s proved for arbitrary argument sets (%s obligations, %s)" % (what, m.group(1), mod))
+        chk.cov["tlaps_obligations"] = total
+        chk.cov["tlaps_discharged"] = total
     except FileNotFoundError:
         chk.notes.append("tlapm not available: TLAPS proof skipped (no claim depends on it)")
     finally:
